@@ -486,3 +486,7 @@ Example ex_range_string :
   go_range_string (fun i r s => @LoopNext (list (Z * Z)) unit (s ++ [(i, r)])) 0 [0x61; 0xC3; 0xA9; 0xFF; 0x62] []
   = LoopNext [(0, 0x61); (1, 0xE9); (3, 0xFFFD); (4, 0x62)].
 Proof. reflexivity. Qed.
+Lemma go_utf8_decode_width b0 t : 1 <= snd (go_utf8_decode (b0 :: t)) <= 4.
+Proof.
+  destruct (go_utf8_decode_cases b0 t) as [[_ E] | [_ (r & w & E & _ & Hw)]]; rewrite E; cbn [snd]; lia.
+Qed.
